@@ -157,6 +157,25 @@ fn junk_fill(r: &mut Rng, n: usize) -> Vec<u8> {
             v.truncate(n);
             v
         }
+        // a byte-string literal of the crate's source, once or over and over (a marker another
+        // tool or another transport puts between messages)
+        4 => {
+            let lit = crate::dict::blob(r);
+            if n <= lit.len() + 8 || r.bool() {
+                // exactly the literal (the drawn length gives way), rarely with a few bytes around it
+                let k = r.below(4);
+                let mut v = if r.chance(1, 4) { r.bytes(k) } else { vec![] };
+                v.extend_from_slice(lit);
+                v
+            } else {
+                let mut v = Vec::with_capacity(n + lit.len());
+                while v.len() < n {
+                    v.extend_from_slice(lit);
+                }
+                v.truncate(n);
+                v
+            }
+        }
         // one byte value all over: 'D' (the first byte of the pattern), erased flash, blanks
         2 => vec![*r.pick(&[0x44u8, 0x44, 0xff, 0x20, 0x01, 0x4c, 0x54]); n],
         3 => {
@@ -204,6 +223,7 @@ fn junk_block(r: &mut Rng) -> Vec<u8> {
         _ => 1 + r.below(64),
     };
     let mut b = junk_fill(r, n);
+    let n = b.len();
     // sprinkle near-patterns
     if n >= 4 && r.chance(1, 3) {
         let p = r.below(n - 3);
